@@ -49,6 +49,8 @@ def run(ctx):
     ctx.stats['functions'] = len(P.fns)
     R1 = ctx.rule('C19.R1', 'archive reads stay inside the buffer: ptr_+4+len <= buffer_.size() proved at every copy')
     R2 = ctx.rule('C19.R2', 'read_chunk copies only after the stored length equals the requested one; cursor advances by header+payload')
+    R4 = ctx.rule('C19.R4', 'archive_traits loaders: every read_chunk(p, n) writes inside the object p points to (n <= sizeof(T) for scalars, n <= v.size()*sizeof(T) for the resized vector)')
+    R5 = ctx.rule('C19.R5', 'next_chunk_size rejects only what does not fit: every throw is reachable only when fewer than 4 header bytes remain or the announced length exceeds the remaining payload (a well-formed last chunk, also an empty one, is accepted)')
     R3 = ctx.rule('C19.R3', 'save and load of every archive_traits specialisation perform the same chunk operations on every path')
 
     E = linbound.Engine(P, inline_depth=2 if ctx.tier == 'quick' else 3)
@@ -69,6 +71,55 @@ def run(ctx):
         ctx.check(ob.proved, R1, key, 'not provable: ' + ob.desc, ob.fn.loc(ob.node), detail={'obligation': ob.desc, 'constraints': [repr(c[1]) + (' >= 0' if c[0] == 'ge' else ' == 0') for c in ob.cons][-12:]})
     ctx.assume('size_t sums of a 32-bit chunk length and a buffer offset do not wrap on the 64-bit target')
     ctx.floor(R1, 8)
+
+    # R4: destination side of read_chunk in the (macro-generated) trivially copyable traits
+    E4 = linbound.Engine(P, inline_depth=0)
+    E4.byte_sinks = True
+    E4.range_sinks = {AR + '::read_chunk': (0, 1)}
+    loaders = sorted([f for f in P.fns.values() if f.short == 'load' and f.bname.startswith('cppcms::archive_traits') and any(f.bcallee(i) == AR + '::read_chunk' for i in f.calls())], key=lambda g: g.id)
+    ctx.require(len(loaders) >= 20, 'C19.R4: archive_traits loaders calling read_chunk not found (%d)' % len(loaders))
+    covered = 0
+    for f in loaders:
+        n0 = len(E4.obligations)
+        E4.analyse(f)
+        tname = f.id.split('::load(')[0].replace('cppcms::archive_traits', 'traits')
+        for ob in E4.obligations[n0:]:
+            covered += 1
+            ctx.check(ob.proved, R4, '%s:read_chunk-destination' % tname, 'not provable: ' + ob.desc, ob.fn.loc(ob.node), detail={'obligation': ob.desc})
+    ctx.floor(R4, 24)
+
+    # R5: completeness of the acceptance test (round trip of archives that end with an empty chunk)
+    from vlib.lin import infeasible as _infeasible
+    ncs = P.fn(AR + '::next_chunk_size')
+    E5 = linbound.Engine(P, inline_depth=2)
+    PTR, BSZ = 'this.f:%s::ptr_' % AR, 'this.f:%s::buffer_.size()' % AR
+    seen5 = []
+
+    def at_throw(engine, fn, st, node, chain):
+        n = fn.N(node)
+        if n['k'] not in ('CXXConstructExpr', 'CXXTemporaryObjectExpr') or 'archive_error' not in (n.get('cn') or ''):
+            return
+        if not any(fn.N(a)['k'] == 'CXXThrowExpr' for a in fn.ancestors(node)):
+            return
+        ptr = st.env.get(PTR, Lin.atom(PTR))
+        bsz = st.env.get(BSZ, Lin.atom(BSZ))
+        rem = bsz - ptr
+        # the announced length, if it was already read on this path: the local filled by memcpy(&size, ...)
+        chunk = None
+        for k_, v_ in st.env.items():
+            if k_.startswith('v:size@') or k_.startswith('v:len@'):
+                chunk = v_
+        accept = [ge(ptr), ge(rem - Lin.const(4))]
+        if chunk is not None:
+            accept += [ge(chunk), ge(rem - Lin.const(4) - chunk)]
+        seen5.append((fn, node, _infeasible(list(st.cons) + accept), chunk is not None, [repr(c[1]) for c in st.cons][-6:]))
+    E5.site_hooks.append(at_throw)
+    E5.analyse(ncs)
+    ctx.check(len(seen5) >= 2, R5, 'next_chunk_size:throw-sites', 'expected the rejections of next_chunk_size to be explored', ncs.where)
+    for k, (fn_, node, ok, has_len, cons_) in enumerate(seen5):
+        ctx.check(ok, R5, 'next_chunk_size:throw@L%d#%d:only-when-chunk-does-not-fit' % (fn_.N(node)['l'] - ncs.line, k),
+                  'an archive whose remaining bytes hold a complete chunk (>= 4 header bytes%s) can be rejected here' % (', announced length within the rest' if has_len else ''), fn_.loc(node), detail={'path': cons_})
+    ctx.floor(R5, 3)
 
     # R2
     rc = P.fn(AR + '::read_chunk')
